@@ -56,6 +56,8 @@ def gen_cases(ctx, n_per_kind):
         for i in range(n_per_kind):
             N = [48, 49, 64, 65][(i + int(rng.integers(0, 4))) % 4]     # even and odd image sides
             t = EXT[i % 5]
+            if kind == "pixel" and t == "dev":
+                t = "sersic"          # the pixel renderer's tolerances are stated for n ≤ 2.5; `dev` fixes n = 4
             if kind == "pixel":
                 psf = np.ones((1, 1)) if i % 2 else RC.gauss_psf(9, float(rng.uniform(1.1, 1.5)), q=float(rng.uniform(0.8, 1.0)))
                 nr = (0.8, 2.5)
@@ -73,6 +75,8 @@ def gen_cases(ctx, n_per_kind):
                 if k.startswith("ellip"):
                     # the orientation / axis-ratio clauses hold for 0.3 ≤ ellip ≤ 0.8: every third case sits on the upper edge
                     p[k] = 0.8 if i % 3 == 1 else float(rng.uniform(0.3, 0.8))
+                    if kind == "pixel":
+                        p[k] = min(p[k], 0.7)      # point-sampled pixels outside the box: keep the minor axis resolvable
             if t in ("doublesersic", "sersic_exp"):
                 # alternately one well-defined axis ratio for the composite and two clearly different ones with the second
                 # component dominant (so that a component whose own ellipticity is ignored shows); each run has both kinds
@@ -105,7 +109,7 @@ def gen_cases(ctx, n_per_kind):
                 sc = RC.gen_scene(rng, kind, N, RC.gauss_psf(11, float(rng.uniform(1.2, 1.6))), types=["sersic"], mode="single", suffix="", pos_styles=("frac",),
                                   n_range=(1.0, 6.0), npr=[9, 12, 3][i % 3])
                 p = sc["params"]
-                p["r_eff"], p["ellip"], p["flux"] = float(rng.uniform(2.0, N / 12)), float(rng.uniform(0.3, 0.8)), float(rng.uniform(50, 500))
+                p["r_eff"], p["ellip"], p["flux"] = float(rng.uniform(2.5, N / 12)), float(rng.uniform(0.3, 0.6)), float(rng.uniform(50, 500))
                 p["xc"], p["yc"] = float(N / 2 + rng.uniform(-2, 2)), float(N / 2 + rng.uniform(-2, 2))
                 sc["cross"] = True
                 cases.append(RC.cast32_scene(sc))
@@ -221,7 +225,7 @@ def oracle_child(payload):
                     fails.append(("centre-abs", f"centroid ({a['xc']:.3f},{a['yc']:.3f}) vs (xc, yc) = ({P['xc']:.3f},{P['yc']:.3f})"))
                 # the automatic guesses a prior is built from use the same convention as the renderers (priors.py: set_theta_guess,
                 # set_position_guess): measured on this very image
-                if P["ellip"] >= 0.3 and P["r_eff"] >= 2.0:
+                if 0.3 <= P["ellip"] <= 0.7 and P["r_eff"] >= 2.5 and P.get("n", 1.0) <= 2.5:
                     import pysersic.priors as PR
                     import warnings
                     with warnings.catch_warnings():
@@ -230,7 +234,7 @@ def oracle_child(payload):
                     dg = abs(((float(sp.theta_guess) - P["theta"]) + np.pi / 2) % np.pi - np.pi / 2)
                     if not dg <= 0.05:
                         fails.append(("theta-guess", f"SourceProperties(image).theta_guess = {float(sp.theta_guess) % np.pi:.4f}, the image was rendered with theta = {P['theta'] % np.pi:.4f}"))
-                    if not np.hypot(float(sp.xc_guess) - P["xc"], float(sp.yc_guess) - P["yc"]) <= 0.1:
+                    if not np.hypot(float(sp.xc_guess) - P["xc"], float(sp.yc_guess) - P["yc"]) <= 0.15:
                         fails.append(("position-guess", f"SourceProperties(image) position guess ({float(sp.xc_guess):.3f},{float(sp.yc_guess):.3f}) vs (xc, yc) = ({P['xc']:.3f},{P['yc']:.3f})"))
         except Exception as e:
             fails.append(("exception", f"{type(e).__name__}: {str(e)[:200]}"))
